@@ -138,7 +138,9 @@ def gen_cases(seed: int, n_compiled: int, n_relayout: int, n_random: int, prop: 
             stats["compile:" + r["err"]] = stats.get("compile:" + r["err"], 0) + 1
             continue
         infos, coros = infos_of_ast(p)
-        compiled.append(Case(f"compiled:{seed}:{i}", r["ops"], infos, coros, src=p, cls="compiled"))
+        # as a binary reader delivers them: numbered by position (the compiler's own numbers have gaps and are
+        # not monotone where a default jump is allocated after the case bodies)
+        compiled.append(Case(f"compiled:{seed}:{i}", renumber_dense(r["ops"]), infos, coros, src=p, cls="compiled"))
     for j in range(n_relayout):
         if not compiled:
             break
